@@ -45,7 +45,7 @@ CHECKS = {
          'DESIGN.md §3 C03', 'E3'),
  'C02': ('exploration',
          'stateless deviation-bounded exploration of thread schedules and fault/close times of the real connection code under a controlled scheduler',
-         'Also: the link is lost (or the user closes) at every line of the traced functions with the interrupted thread held back until the error path has run to its end (scheduling policy env_first, one deviation). The real Crazyflie / SyncCrazyflie objects connect to a simulated device while a controlled scheduler owns every '
+         'Also: the unsolicited value notification about the parameter that is read first. Also: the link is lost (or the user closes) at every line of the traced functions with the interrupted thread held back until the error path has run to its end (scheduling policy env_first, one deviation). The real Crazyflie / SyncCrazyflie objects connect to a simulated device while a controlled scheduler owns every '
          'thread switch and the clock. 14 configurations (Crazyflie / SyncCrazyflie, protocol 3 / 10, hello packet, unsolicited value update during the download, immediate retry of a failed blocking open, default / eager-start / hand-off default schedule). Explored exhaustively: every single deviation (quick) among link error from the '
          'driver thread at any scheduling point, link error raised inside send_packet at any transmission, user close_link '
          'at any point, any other runnable thread at any synchronisation point - and, in two line-level configurations, '
@@ -74,7 +74,7 @@ CHECKS = {
          'DESIGN.md §3 C14', 'enumeration'),
  'C10': ('exploration',
          'stateless deviation-bounded exploration of loss/delay patterns, close/reopen times and timer-vs-dispatcher orders on the real retry code in virtual time',
-         'Also: two requests awaiting the same reply pattern, the same pattern awaited again in the next session (close exactly at the second retry instant: virtual instants are compared on a 1 ns grid), a request registered while a matching packet is being matched is not judged. Also: a focused line-level search (any first deviation + 1-2 switches at the lines of the retry machinery) and the two-deviation exploration of a second user sending across close/re-open. The real Crazyflie.send_packet / retry timers / dispatcher run against a silent simulated device under the '
+         'Also: a packet counts as received when the library takes it from the link (the reference does not depend on where the library calls its matcher); a handler that sends the next request with the same pattern from the dispatcher thread. Also: two requests awaiting the same reply pattern, the same pattern awaited again in the next session (close exactly at the second retry instant: virtual instants are compared on a 1 ns grid), a request registered while a matching packet is being matched is not judged. Also: a focused line-level search (any first deviation + 1-2 switches at the lines of the retry machinery) and the two-deviation exploration of a second user sending across close/re-open. The real Crazyflie.send_packet / retry timers / dispatcher run against a silent simulated device under the '
          'controlled scheduler. 22 scenarios (a second user thread sending across close/re-open, hand-off default schedule, single request with 0.2 s and 1 s timeout, prefix-sharing patterns in both '
          'issue orders, unsolicited packet matching several pending patterns, close, close+reopen inside and at the retry '
          'instant, reliable link) are explored with every single deviation and (3 scenarios quick / all thorough) every '
@@ -99,7 +99,7 @@ CHECKS = {
          'DESIGN.md §3 C20', 'enumeration'),
  'C06': ('exploration',
          'exhaustive input enumeration plus stateless deviation-bounded exploration of reply faults, link loss and schedules on the real Memory subsystem',
-         'Also: the link is lost at every line of the user\'s call and of the handlers with the interrupted thread held back until the error path has finished (policy env_first); the fault thread is parked before the first request. Also: four long transfers (2500-5100 bytes), focused line-level searches (one reply fault / link loss / second-user request + 1-2 thread switches at the lines of the memory subsystem), link lost at any point followed by a second user\'s request within 30 points, two user threads at line level. Part A drives every (memory id in {0,1,255}) x (7 start addresses incl. chunk boundaries and the top of the 32-bit '
+         'Also: the user overwrites or empties its data buffer as soon as write() has returned; another Crazyflie object is constructed at any point during a transfer. Also: the link is lost at every line of the user\'s call and of the handlers with the interrupted thread held back until the error path has finished (policy env_first); the fault thread is parked before the first request. Also: four long transfers (2500-5100 bytes), focused line-level searches (one reply fault / link loss / second-user request + 1-2 thread switches at the lines of the memory subsystem), link lost at any point followed by a second user\'s request within 30 points, two user threads at line level. Part A drives every (memory id in {0,1,255}) x (7 start addresses incl. chunk boundaries and the top of the 32-bit '
          'space) x (read lengths 0..61, write lengths 0..76, with and without progress callback) through the real Memory '
          'class against a sparse device image: returned bytes, final image, request/chunk tiling (<= 20 / <= 25 bytes, '
          'ascending, once), exactly one notification, no lock or record left. Part B explores 25 operation sequences (1-3 '
@@ -200,7 +200,7 @@ CHECKS = {
          'DESIGN.md §3 C18', 'E2'),
  'C19': ('exploration',
          'stateless deviation-bounded exploration of per-member thread interleavings of the real Swarm code, over all sizes/failing subsets/argument dictionaries',
-         'The real Swarm runs with instrumented members from its factory argument; the threads started by parallel_safe run '
+         'Also: URIs given as a list changed after construction, as a generator and with a duplicate; other Swarm objects created before and after the one under test (their members must never be used). The real Swarm runs with instrumented members from its factory argument; the threads started by parallel_safe run '
          'under the controlled scheduler with scheduling points at every line of the Swarm methods and inside the member '
          'operations. Enumerated completely: sizes 1..3 (thorough 4) x every failing subset x {sequential, parallel, '
          'parallel_safe, open_links, open_links twice} x three kinds of argument dictionary, each with every schedule of at '
